@@ -115,7 +115,9 @@ def main():
         })
     m = {
         "version": 1,
-        "setup_cmd": "true",
+        "setup_cmd": "/venv/bin/python -c 'import hypothesis' 2>/dev/null || /venv/bin/pip install -q --no-index --find-links "
+                     "/opt/veriftools/wheels hypothesis; [ -d .deps/atheris ] || /venv/bin/pip install -q --no-index --find-links "
+                     "/opt/veriftools/wheels --target .deps atheris || true; ./check selftest",
         "hooks": {
             "guard": "NREL_JADE_VERIF",
             "enable": "no hooks: all instrumentation is external interposition on library entry points; checks import "
@@ -130,6 +132,8 @@ def main():
              "kind_free_text": "deterministic simulation world (virtual processes, simulated SLURM, lock model, virtual clock) driven by Hypothesis"},
             {"name": "E3-model", "path": "jv/refmodel.py", "serves_properties": sorted(k for k, c in CHECKS.items() if "E3" in c["engine"]),
              "kind_free_text": "reference model of job outcomes / batch validity / resubmission closure"},
+            {"name": "E5-fuzz", "path": "jv/fuzz.py", "serves_properties": ["C18"],
+             "kind_free_text": "coverage-guided fuzzing (atheris/libFuzzer) of the squeue/sbatch text parsers with the oracle inside the target"},
             {"name": "E4-direct", "path": "jv/props", "serves_properties": sorted(k for k, c in CHECKS.items() if "E4" in c["engine"]),
              "kind_free_text": "direct Hypothesis tests and rule-based state machines on JADE components"},
         ],
